@@ -16,7 +16,8 @@
 (*                   Send (request now outstanding at the destination)     *)
 (*  destination      Answer: the next item of that destination's schedule  *)
 (*                   -- A accept, R definite refusal, L lost (hang, closed *)
-(*                   before the body was read) -- then accept for ever     *)
+(*                   before the body was read) -- then accept for ever;    *)
+(*                   ConnLost: a pipelined request dies with its connection*)
 (*  responder /      RespondFin (t.Error == nil / 2xx -> Finish),          *)
 (*  handler return   RespondReq (otherwise -> Requeue), with the hostpool  *)
 (*                   mark                                                  *)
@@ -37,16 +38,17 @@ EXTENDS Integers, Sequences, FiniteSets, TLC
 
 CONSTANTS Msgs, Dests,      \* Dests = 1..n
           Kind,             \* "async" | "sync"
-          Mode,             \* "rr" | "hostpool" | "eps"
+          Mode,             \* "rr" | "hostpool" | "eps"   ("any": unconstrained choice, used by RelayShapeTrace only)
           Handlers,         \* concurrent HandleMessage calls
           Items,            \* schedule alphabet, subset of {"A","R","L","D"}
           MaxSched,         \* schedule length per destination
           MaxBad,           \* total number of non-accept items over all schedules
           MaxTimeouts,      \* msg-timeout expiries at the source
+          MaxConnLost,      \* requests that fail because their connection died under them (no schedule item)
           MaxAttempts,      \* go-nsq max_attempts; 0 = never give up
           Filter
 
-ASSUME Kind \in {"async", "sync"} /\ Mode \in {"rr", "hostpool", "eps"} /\ Filter \in BOOLEAN
+ASSUME Kind \in {"async", "sync"} /\ Mode \in {"rr", "hostpool", "eps", "any"} /\ Filter \in BOOLEAN
 
 N == Cardinality(Dests)
 
@@ -59,10 +61,11 @@ VARIABLES q,        \* messages queued in the source channel
           dead,     \* hostpool: hosts marked dead
           sched,    \* per destination: remaining schedule
           tos,      \* timeouts so far
+          cl,       \* connection-loss failures so far
           \* history (the outside view, RelayAbs)
           acc, dfail, ifail, reqs, fins, unknown, ended
 
-ivars == <<q, att, sif, gone, work, ctr, dead, sched, tos>>
+ivars == <<q, att, sif, gone, work, ctr, dead, sched, tos, cl>>
 hvars == <<acc, dfail, ifail, reqs, fins, unknown, ended>>
 vars  == <<ivars, hvars>>
 
@@ -79,7 +82,7 @@ Schedules == {f \in [Dests -> SeqsUpTo(Items, MaxSched)] :
 
 Init == /\ q = Msgs /\ att = [m \in Msgs |-> 0] /\ sif = [m \in Msgs |-> FALSE]
         /\ gone = [m \in Msgs |-> FALSE] /\ work = {} /\ ctr = 0 /\ dead = {}
-        /\ sched \in Schedules /\ tos = 0
+        /\ sched \in Schedules /\ tos = 0 /\ cl = 0
         /\ acc = [m \in Msgs |-> {}] /\ dfail = [m \in Msgs |-> 0] /\ reqs = [m \in Msgs |-> 0]
         /\ fins = [m \in Msgs |-> 0] /\ ifail = 0 /\ unknown = 0 /\ ended = FALSE
 
@@ -103,19 +106,19 @@ Deliver(m) == /\ m \in q
               /\ att' = [att EXCEPT ![m] = @ + 1]
               /\ sif' = [sif EXCEPT ![m] = TRUE]
               /\ work' = work \cup {[m |-> m, a |-> att[m] + 1, st |-> "h", d |-> 0]}
-              /\ UNCHANGED <<gone, ctr, dead, sched, tos, hvars>>
+              /\ UNCHANGED <<gone, ctr, dead, sched, tos, cl, hvars>>
 SrcTimeout(m) == /\ sif[m] /\ tos < MaxTimeouts
                  /\ sif' = [sif EXCEPT ![m] = FALSE] /\ q' = q \cup {m} /\ tos' = tos + 1
-                 /\ UNCHANGED <<att, gone, work, ctr, dead, sched, hvars>>
+                 /\ UNCHANGED <<att, gone, work, ctr, dead, sched, cl, hvars>>
 
 (* go-nsq handlerLoop: shouldFailMessage *)
 GiveUp(w) == /\ w \in work /\ w.st = "h" /\ MaxAttempts > 0 /\ w.a > MaxAttempts
              /\ SendFin(w.m) /\ work' = work \ {w}
-             /\ UNCHANGED <<att, ctr, dead, sched, tos, acc, dfail, ifail, unknown, ended>>
+             /\ UNCHANGED <<att, ctr, dead, sched, tos, cl, acc, dfail, ifail, unknown, ended>>
 (* filter / sample says no: HandleMessage returns nil -> auto FIN *)
 FilterDrop(w) == /\ w \in work /\ w.st = "h" /\ Filter
                  /\ SendFin(w.m) /\ work' = work \ {w}
-                 /\ UNCHANGED <<att, ctr, dead, sched, tos, acc, dfail, ifail, unknown, ended>>
+                 /\ UNCHANGED <<att, ctr, dead, sched, tos, cl, acc, dfail, ifail, unknown, ended>>
 
 (* destination choice *)
 RRPick(c) == (c % N) + 1
@@ -133,17 +136,18 @@ Choices ==
     [] Mode = "eps" ->
          IF Alive = {} THEN {<<1, 0, {}>>}
          ELSE {<<d, ctr, dead>> : d \in Dests}
+    [] Mode = "any" -> {<<d, ctr, dead>> : d \in Dests}
 
 NextItem(d) == IF sched[d] = <<>> THEN "A" ELSE Head(sched[d])
 Consume(d) == sched' = [sched EXCEPT ![d] = IF @ = <<>> THEN @ ELSE Tail(@)]
 CtrBound == 2 * N       \* the counter only matters modulo N
 
 (* HandleMessage up to the publish call *)
-Send(w, ch) == /\ w \in work /\ w.st = "h" /\ ch \in Choices
-               /\ NextItem(ch[1]) # "D"
-               /\ work' = (work \ {w}) \cup {[w EXCEPT !.st = "s", !.d = ch[1]]}
-               /\ ctr' = ch[2] % CtrBound /\ dead' = ch[3]
-               /\ UNCHANGED <<q, att, sif, gone, sched, tos, hvars>>
+SendTo(w, ch) == /\ w \in work /\ w.st = "h" /\ ch \in Choices
+                 /\ work' = (work \ {w}) \cup {[w EXCEPT !.st = "s", !.d = ch[1]]}
+                 /\ ctr' = ch[2] % CtrBound /\ dead' = ch[3]
+                 /\ UNCHANGED <<q, att, sif, gone, sched, tos, cl, hvars>>
+Send(w, ch) == NextItem(ch[1]) # "D" /\ SendTo(w, ch)      \* a destination that is down refuses the connection
 (* destination down: PublishAsync / connect returns an error (hostpool: Mark(err) at once); HandleMessage
    returns it and go-nsq's handlerLoop requeues (RespondReq) *)
 SendFails(w, ch) == /\ w \in work /\ w.st = "h" /\ ch \in Choices
@@ -152,7 +156,7 @@ SendFails(w, ch) == /\ w \in work /\ w.st = "h" /\ ch \in Choices
                     /\ ctr' = ch[2] % CtrBound
                     /\ dead' = IF Mode = "rr" THEN ch[3] ELSE ch[3] \cup {ch[1]}
                     /\ ifail' = ifail + 1
-                    /\ UNCHANGED <<q, att, sif, gone, tos, acc, dfail, reqs, fins, unknown, ended>>
+                    /\ UNCHANGED <<q, att, sif, gone, tos, cl, acc, dfail, reqs, fins, unknown, ended>>
 
 (* the destination answers the outstanding request w with the next item of its schedule; a "D" met by a
    request that is already on its way (connection torn down under it) loses the request like "L" *)
@@ -164,17 +168,25 @@ Answer(w) == /\ w \in work /\ w.st = "s"
                 /\ IF Filter /\ it = "A" THEN unknown' = unknown + 1 ELSE UNCHANGED unknown   \* rewritten body
                 /\ IF it = "R" /\ ~Filter THEN dfail' = [dfail EXCEPT ![w.m] = @ + 1] ELSE UNCHANGED dfail
                 /\ IF it \in {"L", "D"} \/ (it = "R" /\ Filter) THEN ifail' = ifail + 1 ELSE UNCHANGED ifail
-             /\ UNCHANGED <<q, att, sif, gone, ctr, dead, tos, reqs, fins, ended>>
+             /\ UNCHANGED <<q, att, sif, gone, ctr, dead, tos, cl, reqs, fins, ended>>
+
+(* the connection a request travels on dies under it (torn down by the answer to ANOTHER request: "L", "D",
+   a refusal by closing; or the relay's own timeout): the request fails at the relay without the destination
+   spending a schedule item -- even when the destination had already accepted it *)
+ConnLost(w) == /\ w \in work /\ w.st \in {"s", "ok"} /\ cl < MaxConnLost     \* "ok": the answer was on its way
+               /\ work' = (work \ {w}) \cup {[w EXCEPT !.st = "fail"]}
+               /\ cl' = cl + 1
+               /\ UNCHANGED <<q, att, sif, gone, ctr, dead, sched, tos, hvars>>
 
 (* responder (nsq_to_nsq) / return from HandleMessage (nsq_to_http) *)
 RespondFin(w) == /\ w \in work /\ w.st = "ok"
                  /\ SendFin(w.m) /\ work' = work \ {w}
                  /\ dead' = dead \ {w.d}                            \* hostPoolResponse.Mark(nil)
-                 /\ UNCHANGED <<att, ctr, sched, tos, acc, dfail, ifail, unknown, ended>>
+                 /\ UNCHANGED <<att, ctr, sched, tos, cl, acc, dfail, ifail, unknown, ended>>
 RespondReq(w) == /\ w \in work /\ w.st = "fail"
                  /\ SendReq(w.m) /\ work' = work \ {w}
                  /\ dead' = IF Mode = "rr" THEN dead ELSE dead \cup {w.d}   \* Mark(err)
-                 /\ UNCHANGED <<att, ctr, sched, tos, acc, dfail, ifail, unknown, ended>>
+                 /\ UNCHANGED <<att, ctr, sched, tos, cl, acc, dfail, ifail, unknown, ended>>
 
 End == /\ ~ended /\ q = {} /\ work = {} /\ \A m \in Msgs : gone[m]
        /\ ended' = TRUE
@@ -182,7 +194,7 @@ End == /\ ~ended /\ q = {} /\ work = {} /\ \A m \in Msgs : gone[m]
 
 RelayStep == \E w \in work : \/ GiveUp(w) \/ FilterDrop(w) \/ RespondFin(w) \/ RespondReq(w)
                              \/ \E ch \in Choices : Send(w, ch) \/ SendFails(w, ch)
-EnvStep   == \E w \in work : Answer(w)
+EnvStep   == \E w \in work : Answer(w) \/ ConnLost(w)
 \* (written out action by action so that TLC's coverage report is per action)
 Next == \/ \E m \in Msgs : Deliver(m)
         \/ \E m \in Msgs : SrcTimeout(m)
@@ -191,6 +203,7 @@ Next == \/ \E m \in Msgs : Deliver(m)
         \/ \E w \in work, ch \in Choices : Send(w, ch)
         \/ \E w \in work, ch \in Choices : SendFails(w, ch)
         \/ \E w \in work : Answer(w)
+        \/ \E w \in work : ConnLost(w)
         \/ \E w \in work : RespondFin(w)
         \/ \E w \in work : RespondReq(w)
         \/ End
@@ -200,7 +213,7 @@ Fair == /\ WF_vars(RelayStep) /\ WF_vars(EnvStep) /\ WF_vars(End)
 Spec == Init /\ [][Next]_vars /\ Fair
 
 ----------------------------------------------------------------------------
-TypeOK == /\ q \subseteq Msgs /\ ctr \in 0..CtrBound /\ dead \subseteq Dests /\ tos \in 0..MaxTimeouts
+TypeOK == /\ q \subseteq Msgs /\ ctr \in 0..CtrBound /\ dead \subseteq Dests /\ tos \in 0..MaxTimeouts /\ cl \in 0..MaxConnLost
           /\ \A w \in work : w.m \in Msgs /\ w.st \in {"h", "s", "ok", "fail"} /\ w.d \in Dests \cup {0}
 
 (* the property *)
